@@ -17,6 +17,10 @@
   (3) every recorded trace is validated by TLC against the trace spec spec/mon/MonWire.tla
       (which judges each event with spec/Wire.tla / spec/RespParser.tla); VIOL lines become verdicts
   (4) binding self-test: one recorded field of an accepted trace is corrupted; TLC must reject it
+  (5) requests in SEQUENCE on one connection (checks/wire_seq.py, spec/WireSeq.tla): every sequence of length 3 (thorough: 4)
+      over three alphabets of "result shapes", the counterexamples of the model's deviation switches and long -simulate
+      sequences are replayed on ONE real text connection, ONE real binary connection and a twin with fresh objects in
+      lockstep; MonWire (StepSeq) compares every text reply with the layout of Wire!DataTail and with the binary reply
 """
 import json, os, random, shutil, time, hashlib, re
 import vbuild, vtlc, engine, checklib
@@ -32,7 +36,12 @@ MANIFEST = {"C14": dict(
          "key normalisation, text LOCK/UNLOCK conversion and result rendering is judged by TLC against the layouts-as-data spec "
          "(spec/Wire.tla) and the reference RESP reading (spec/RespParser.tla); TLC also proves on the bounded model that the "
          "implementation-shaped parser is chunking independent once deviations A9/A19 are repaired and produces the counterexamples "
-         "that are replayed on the real parser.",
+         "that are replayed on the real parser. Requests in sequence on one connection (spec/WireSeq.tla: abstract engine + the "
+         "connection's recycled result object, invariants FreshResult / WellFramed, deviation switches KeepFlag / KeepData / KeepCounts): "
+         "every sequence of length 3 (thorough 4) over the alphabets of result shapes, the deviation counterexamples and -simulate "
+         "sequences run on one real text connection, one real binary connection and a twin with fresh objects in lockstep; every text "
+         "reply is judged against the reply layout (announced = written elements, DATA pair iff the result carries a value frame) and "
+         "field by field against the binary reply, effects (holders, value) against each other.",
     note="Trusted base: the README tables (LOCK request/result) and, for the other ten frame types, the struct declarations of "
          "protocol/command.go transcribed into spec/Wire.tla; MD5 is computed by Python's hashlib and passed through; TLC, the Go "
          "harness's field extraction. Boundary + seeded valuations, not all 2^512 frames (exhaustive:false).",
@@ -432,19 +441,19 @@ def group_traces(traces, outdir, k):
     return out
 
 MON_TIMEOUT = {"s": 1500}
-LAST_MON = {"refdiv": [], "judged_obs": 0, "agnostic": 0, "twinbad": []}
+LAST_MON = {"refdiv": [], "judged_obs": 0, "agnostic": 0, "twinbad": [], "seqdiv": [], "seq_twinbad": [], "seq_agnostic": 0}
 
-def monitor(traces, wd, tag, timeout=None):
-    """engine.monitor_traces for MonWire, additionally collecting the REFDIV / SUMMARY lines."""
+def monitor(traces, wd, tag, timeout=None, groups=6):
+    """engine.monitor_traces for MonWire, additionally collecting the REFDIV / SEQDIV / SUMMARY lines."""
     import concurrent.futures as cf
     if timeout is None:
         timeout = MON_TIMEOUT["s"]
-    traces = group_traces(traces, os.path.join(wd, "grp_" + tag), 6)
+    traces = group_traces(traces, os.path.join(wd, "grp_" + tag), groups)
     def one(arg):
         i, tr = arg
         r = vtlc.run_tlc([SPEC, MON], "MonWire", MON_CFG % {"trace": tr}, os.path.join(wd, f"mon_{tag}_{i}"), workers=1, timeout=timeout, heap="3g")
         return tr, r
-    viols, nstates, nev, refdiv, judged, agn, twinbad = [], 0, 0, [], 0, 0, []
+    viols, nstates, nev, refdiv, judged, agn, twinbad, seqdiv = [], 0, 0, [], 0, 0, [], []
     with cf.ThreadPoolExecutor(max_workers=engine.NCPU) as ex:
         for tr, r in ex.map(one, list(enumerate(traces))):
             o = r["out"]
@@ -471,6 +480,11 @@ def monitor(traces, wd, tag, timeout=None):
                         pass
                 elif ln.startswith('"TWINBAD '):
                     twinbad.append(ln[:300])
+                elif ln.startswith('"SEQDIV '):
+                    try:
+                        seqdiv.append(json.loads(json.loads(ln)[7:]))
+                    except Exception:
+                        pass
                 elif ln.startswith('"SUMMARY '):
                     try:
                         x = json.loads(json.loads(ln)[8:])
@@ -480,6 +494,8 @@ def monitor(traces, wd, tag, timeout=None):
                         pass
     if tag == "main":
         LAST_MON.update(refdiv=refdiv, judged_obs=judged, agnostic=agn, twinbad=twinbad)
+    elif tag == "seq":
+        LAST_MON.update(seqdiv=seqdiv, seq_twinbad=twinbad, seq_agnostic=agn)
     return viols, {"monitor_states": nstates, "events": nev}
 
 # ------------------------------------------------------------------ self-test
@@ -487,7 +503,7 @@ def monitor(traces, wd, tag, timeout=None):
 def selftest(traces, wd):
     """Corrupt ONE recorded field of an accepted trace per event family; TLC must reject each."""
     results = []
-    want = {"enc": None, "dec": None, "obs": None, "norm": None, "vframe": None, "text": None, "srvbin": None, "srvtext": None}
+    want = {"enc": None, "dec": None, "obs": None, "norm": None, "vframe": None, "text": None, "srvbin": None, "srvtext": None, "seq": None}
     lines_by_file = {}
     for tr in traces:
         with open(tr) as fh:
@@ -515,6 +531,9 @@ def selftest(traces, wd):
         if kind == "srvbin" and e["panic"] == "" and len(e.get("rb", [])) == 64:
             e["rb"][56] ^= 1
             return "srvbin event: one bit of the Count byte (offset 56) of the server's reply frame flipped"
+        if kind == "seq" and e["hastext"] and e["hasbin"] and e["tdone"] == "" and e["l"]["op"] != "get" and bytes(e["trb"][:5]) == b"*12\r\n":
+            e["trb"][2] = ord("4")
+            return "seq event: the text reply to a LOCK / UNLOCK in a sequence announces 14 elements instead of the 12 it has"
         if kind == "srvtext" and e["panic"] == "" and e.get("tsnap") and e["tsnap"].get("holders"):
             e["tsnap"]["holders"][0]["Expried"][1] ^= 1
             return "srvtext event: the Expried of the hold created by the TEXT command changed by one"
@@ -602,7 +621,13 @@ def run(prop, tier, seed):
         t_ = time.time()
         # (1) design checks (independent TLC runs, in parallel)
         import concurrent.futures as cf
-        with cf.ThreadPoolExecutor(max_workers=7) as ex:
+        try:
+            import importlib
+            seqmod = importlib.import_module("checks.wire_seq")
+        except ImportError:
+            seqmod = None
+        with cf.ThreadPoolExecutor(max_workers=8) as ex:
+            f_sq = ex.submit(seqmod.run_models, wd, quick, seed) if seqmod is not None else None
             f_w = ex.submit(run_wiremc, wd)
             f_rq = ex.submit(run_respmc, wd, "req", quick, True)
             f_rs = ex.submit(run_respmc, wd, "resp", quick, True)
@@ -618,6 +643,7 @@ def run(prop, tier, seed):
             st_ps, wall_ps = f_ps.result()
             st_dq, cex_q, wall_dq, _ = f_dq.result()
             st_ds, cex_s, wall_ds, _ = f_ds.result()
+            seq_res = f_sq.result() if f_sq is not None else None
         tm["design_checks"] = round(time.time() - t_, 1); t_ = time.time()
         cex_q.sort(key=lambda c: json.dumps(c, sort_keys=True))
         cex_s.sort(key=lambda c: json.dumps(c, sort_keys=True))
@@ -647,21 +673,36 @@ def run(prop, tier, seed):
             srv_scs = srvmod.gen(rng, ids, quick, md5_of, lock_args)
             binp_s = vbuild.build_inpkg("server", wd)
             tr_s = run_pkg(binp_s, "TestVerifWireSrv", srv_scs, wd, "sv")
+        # sequences of requests on one text and one binary connection (spec/WireSeq.tla)
+        seq_scs, tr_q, seq_models = [], [], None
+        if seqmod is not None and srvmod is not None:
+            seq_scs, seq_models = seqmod.build_scenarios(seq_res, random.Random(seed * 1000003 + 1414), ids, md5_of, quick)
+            tr_q = run_pkg(binp_s, "TestVerifWireSeq", seq_scs, wd, "sq")
         traces = tr_a + tr_b + tr_s
         tm["harness"] = round(time.time() - t_, 1); t_ = time.time()
-        # (3) monitor
-        viols, mst = monitor(traces, wd, "main")
+        # (3) monitor (the sequence traces in their own TLC processes, at the same time)
+        with cf.ThreadPoolExecutor(max_workers=2) as ex:
+            f_m = ex.submit(monitor, traces, wd, "main")
+            f_q = ex.submit(monitor, tr_q, wd, "seq", None, 10 if quick else 16) if tr_q else None
+            viols, mst = f_m.result()
+            if f_q is not None:
+                vq, mq = f_q.result()
+                viols += vq
+                mst = {k: mst[k] + mq[k] for k in mst}
         tm["monitor"] = round(time.time() - t_, 1); t_ = time.time()
-        allscs = {sc["id"]: sc for sc in scs + parse_scs + srv_scs}
-        if LAST_MON["twinbad"]:
-            raise InfraError("scenario generator and spec disagree on the binary twin of a text command: " + json.dumps(LAST_MON["twinbad"][:3]))
+        allscs = {sc["id"]: sc for sc in scs + parse_scs + srv_scs + seq_scs}
+        if LAST_MON["twinbad"] or LAST_MON["seq_twinbad"]:
+            raise InfraError("scenario generator and spec disagree on the binary twin of a text command: " + json.dumps((LAST_MON["twinbad"] + LAST_MON["seq_twinbad"])[:3]))
+        seq_cov = seqmod.coverage(tr_q) if tr_q else None
+        if seq_cov is not None and (seq_cov["transitions_value_then_no_value_text"] == 0 or seq_cov["transitions_value_then_no_value_binary"] == 0):
+            raise InfraError("sequence phase vacuous: no connection answered a result without value frame right after one with value frame")
         # one violation per signature (code + the classifying detail fields), the smallest instance, with a count
         groups = {}
         for v in viols:
             if v.get("prop") != prop:
                 continue
             d = v.get("detail", {})
-            sig = (v["code"],) + tuple(json.dumps(d.get(k), sort_keys=True) for k in ("cause", "mode", "kind", "t", "result", "where", "fields", "rule", "command_type"))
+            sig = (v["code"],) + tuple(json.dumps(d.get(k), sort_keys=True) for k in ("cause", "made_by", "mode", "kind", "t", "result", "where", "fields", "rule", "command_type"))
             size = len(json.dumps(d))
             g = groups.get(sig)
             if g is None:
@@ -677,12 +718,14 @@ def run(prop, tier, seed):
             v["instances"] = n
             out.viols.append((v, allscs.get(v.get("detail", {}).get("id"))))
         # (4) self-test
-        stest = selftest(traces, wd)
+        stest = selftest(traces + tr_q, wd)
         if not stest:
             raise InfraError("self-test could not find an event to corrupt")
         missing = {"enc", "dec", "obs", "norm", "vframe", "text"} - {s["family"] for s in stest}
         if srvmod is not None:
             missing |= {"srvbin", "srvtext"} - {s["family"] for s in stest}
+        if tr_q:
+            missing |= {"seq"} - {s["family"] for s in stest}
         if missing:
             raise InfraError(f"self-test found no accepted event to corrupt for {sorted(missing)}")
         for s in stest:
@@ -692,7 +735,7 @@ def run(prop, tier, seed):
         nobs = 0
         nsplits = 0
         kinds = {}
-        for tr in traces:
+        for tr in traces + tr_q:
             with open(tr) as fh:
                 for ln in fh:
                     m = re.match(r'\{"[a-z]+":', ln)
@@ -704,10 +747,12 @@ def run(prop, tier, seed):
                         nsplits += e["splits"]
                         nobs += e["distinct"]
         design = [st_w, st_rq, st_rs, st_pq, st_ps, st_dq, st_ds]
-        distinct = len({json.dumps({k: sc[k] for k in sc if k not in ("id", "src", "name", "seed")}, sort_keys=True) for sc in scs + parse_scs + srv_scs})
+        distinct = len({json.dumps({k: sc[k] for k in sc if k not in ("id", "src", "name", "seed")}, sort_keys=True) for sc in scs + parse_scs + srv_scs + seq_scs})
+        if seq_models is not None:
+            design = design + [{"distinct": seq_models["states"], "generated": seq_models["transitions"]}]
         out.coverage = {
             "states": sum(s["distinct"] for s in design), "transitions": sum(s["generated"] for s in design),
-            "traces_validated_against_impl": len(scs) + len(parse_scs) + len(srv_scs),
+            "traces_validated_against_impl": len(scs) + len(parse_scs) + len(srv_scs) + len(seq_scs),
             "samples": [classify_sample(sc) for sc in (scs[:1] + [s for s in scs if s["k"] == "text"][:1] + parse_scs[:2] +
                                                        [s for s in parse_scs if s["name"].startswith("lock-cmd")][:1])],
             "exhaustive": False,
@@ -724,23 +769,31 @@ def run(prop, tier, seed):
                  "counterexamples_found": len(cex_q) + len(cex_s), "replayed_on_real_parser": len(cexs),
                  "states": st_dq["distinct"] + st_ds["distinct"], "wall_s": round(wall_dq + wall_ds, 1)},
             ],
+            "sequences_on_one_connection": None if seq_models is None else {
+                "models": seq_models["models"], "sequences_replayed": len(seq_scs),
+                "by_source": {k: sum(1 for s in seq_scs if s["src"] == k) for k in sorted({s["src"] for s in seq_scs})},
+                "with_text_connection": sum(1 for s in seq_scs if s["text"]), "measured": seq_cov,
+                "model_prediction_divergences": len(LAST_MON["seqdiv"]), "model_prediction_divergence_samples": LAST_MON["seqdiv"][:3]},
             "tlc_valuations_replayed": len(vals),
-            "scenarios_by_kind": {k: sum(1 for s in scs + parse_scs + srv_scs if s["k"] == k) for k in sorted({s["k"] for s in scs + parse_scs + srv_scs})},
+            "scenarios_by_kind": {k: sum(1 for s in scs + parse_scs + srv_scs + seq_scs if s["k"] == k) for k in sorted({s["k"] for s in scs + parse_scs + srv_scs + seq_scs})},
             "events_by_kind": kinds,
             "text_streams": len(parse_scs), "splits_executed_on_real_parser": nsplits, "distinct_prefix_observations_judged": nobs,
             "monitor": {"module": "spec/mon/MonWire.tla", "events": mst["events"], "monitor_states": mst["monitor_states"]},
             "selftest": stest, "phase_wall_s": tm,
-            "agnostic_cases": LAST_MON["agnostic"], "refinement_divergences": len(LAST_MON["refdiv"]),
+            "agnostic_cases": LAST_MON["agnostic"] + LAST_MON["seq_agnostic"], "refinement_divergences": len(LAST_MON["refdiv"]),
             "refinement_divergence_samples": LAST_MON["refdiv"][:3],
-            "evaluations": len(scs) + len(srv_scs) + nsplits,
+            "evaluations": len(scs) + len(srv_scs) + nsplits + sum(len(s["steps"]) for s in seq_scs),
             "distinct_nontrivial": distinct,
             "rule": "one evaluation = one scenario executed on the real codec (for text streams: one split of the stream fed chunk by chunk) and judged by the TLA+ monitor; "
-                    "distinct = distinct scenario contents (ids, names and seeds ignored)",
+                    "for a sequence: one step replayed on the real connections; distinct = distinct scenario contents (ids, names and seeds ignored)",
         }
         out.assumptions = [
             "layouts of the ten frame types the README does not document are transcribed from the struct declarations in protocol/command.go",
             "a 64-byte input that is not the encoding of any value (NUL inside / in front of a NUL-padded string field, r_leader HostLen not matching Host) is outside the statement: agnostic",
             "an empty request list (*0), empty array / kv items and UNSET value frames that carry data are outside the statement: not generated",
+            "sequences on one connection: requests are answered at once (TIMEOUT 0) on a clock that does not advance; a FLAG option stands before the value option "
+            "(a FLAG behind it overwrites the 0x20 bit the value option set: not exercised); numbers stay below 2^31; a value that is not a payload of its own "
+            "value type has no defined rendering (only the death of the serving loop is reported for it, known finding V13)",
             "MD5 is Python's hashlib, passed to the monitor as data; text option values stay below 2^31 (TLC integers), so the 0x8000 keeplive flag is not exercised in text form",
             "the text COUNT / RCOUNT options denote 'maximum number of locks' = binary Count / Rcount + 1 (README wording), taken as the definition of the equivalent binary command",
         ]
